@@ -8,6 +8,8 @@ ID_C07B = ("C07 ObjectSet created although the previous create is not listed yet
            "incomplete previous list, two ObjectSets with the same revision number")
 ID_C08 = ("C08 revision archived although it controls an object of the next newer revision that lives in an ObjectSlice "
           "(the archive reconciler looks at inline objects only)")
+ID_C08M = ("C08 revision archived although an ObjectSlice referenced by the next newer revision could not be read "
+           "(its contents are unknown; the pass has to fail instead)")
 ID_C08S = ("C08 object present in the outgoing and the incoming revision deleted during the handover "
            "(incoming revision keeps it in an ObjectSlice)")
 
@@ -25,6 +27,12 @@ def has_slices(sc):
     return any(o["gk"] == 9 for s in sc["sets"] for p in s["phases"] for o in p["objects"]) or \
         any(o["gk"] == 9 for s in sc["steps"] if s["op"] == "edit" for p in sc["alphabet"][s["tmpl"] - 1] for o in p["objects"]) or \
         any(o["gk"] == 9 for p in sc["alphabet"][sc["dep"]["tmpl"] - 1] for o in p["objects"])
+
+
+def has_missing_slice(sc):
+    have = {s["name"] for s in sc.get("slices", [])}
+    refs = {o["name"] for s in sc["sets"] for p in s["phases"] for o in p["objects"] if o["gk"] == 9}
+    return bool(refs - have)
 
 
 def pass_class(st, so):
